@@ -234,3 +234,25 @@ def gen_circ(d, ref:Ref, tid, intron_p=0.0):
     frags = [list(x) for x in ex[i:j + 1]]
     start, end = frags[0][0], frags[-1][1]
     return dict(kind='circ', tx=tid, frags=frags, introns=[], id=f'CIRC-{tid}-{start}:{end}')
+
+
+def gen_nested(d, ref:Ref, tid, as_rec, n=2):
+    """ small variants inside the donor range of an alternative-splicing insertion /
+    substitution record (intronic for the transcript, part of the isoform the record creates);
+    adjacent SNV pairs are frequent (the tool merges them into an MNV) """
+    gseq = ref.gene_seq(ref.gene_of(tid)['id'])
+    lo, hi = as_rec['dstart'], as_rec['dend']
+    out = []
+    used = set()
+    for _ in range(n):
+        if hi - lo < 3:
+            break
+        g0 = d.randint(lo, hi - 2)
+        for g in ((g0, g0 + 1) if d.chance(0.6) else (g0,)):
+            if g in used or g >= hi:
+                continue
+            used.add(g)
+            refa = gseq[g]
+            out.append(dict(kind='small', tx=tid, g=g, ref=refa,
+                alt=d.choice([x for x in 'ACGT' if x != refa])))
+    return out
